@@ -6,9 +6,18 @@
     fix-ncep         {"ids":[..],"fix":b}        -> {"tree": rendering of template_from_ids (fix applied iff "fix")}
     build-src        {"ids":[..],"srcs":[[[id,[m,..]],..],..]}  by-source Table D resolution (oldest source first;
                                                  Table B from the loaded tables) -> {"tree": ..}
+    tabledef-stream  {"msgs":[{"ids":[..],"compressed":b,"n":n,"bits":"01..","def":b},..],"compiled":b}
+                                                 the whole stream run by `TableDef.specRun` (Msg/TableStream.lean) on the
+                                                 loaded tables (= the table FILES of the one table group of the stream):
+                                                 every message decoded with the files extended by the definitions the
+                                                 model itself extracted from the definition messages ("def": data
+                                                 category 11) before it -> {"out":[{"subsets":..,"rest":n}|{"err":..},..]}
+                                                 (the list ends with the first error, as the generator does)
   `dec-data` / `enc-data` / `gen-data` take `"fix_ncep": true` (Drv/CoderOp.lean: getTemplate).
 -/
 import BufrModel.Msg.TableDef
+import BufrModel.Msg.TableStream
+import BufrModel.Coder.Compiler
 import BufrModel.Drv.CoderOp
 open Lean
 namespace Bufr.Drv
@@ -71,6 +80,54 @@ def opBuildSrc (st : DrvState) (j : Json) : J (DrvState × Json) := do
   match buildSrc st.tables.b srcs defaultDepth ids with
   | .error e => pure (st, errJson e)
   | .ok t => pure (st, jobj [("tree", jarr (t.map descToJson))])
+
+/-- a message of the stream as the driver receives it -/
+structure SMsg where
+  ids : List Nat
+  compressed : Bool
+  n : Nat
+  bits : Bits
+  isDef : Bool
+
+/-- decoded message: template, subsets, number of unread bits -/
+abbrev SOut := List Desc × List SubsetOut × Nat
+
+/-- the coder model as parameters of the stream loop; one table group (`Unit` key) whose files are `T` -/
+def streamParams (T : Tables) (compiled : Bool) : StreamParams Unit SMsg SOut (List Desc) (List Stmt) where
+  limit := 50
+  cacheMax := if compiled then some 16 else none
+  header := fun m => .ok ((), m.ids)
+  files := fun _ => T
+  template := templateFromIds
+  compile := fun _ t => Bufr.compile t
+  process := fun _ t c m =>
+    match c with
+    | none => (decodeData t m.compressed m.n m.bits).map fun (outs, rest) => (t, outs, rest.length)
+    | some prog => (decodeDataC prog m.compressed m.n m.bits).map fun (outs, rest) => (t, outs, rest.length)
+  defs := fun m r =>
+    if m.isDef && 0 < m.n then
+      some (match r.2.1 with
+        | [] => .error .other
+        | o :: _ => do
+          let (bs, ds) ← extract r.1 o.vals
+          toEntries bs ds)
+    else none
+
+def opTableDefStream (st : DrvState) (j : Json) : J (DrvState × Json) := do
+  let compiled ← asBool (fldD j "compiled" (Json.bool false))
+  let mut msgs : List SMsg := []
+  for mj in (← asList (← fld j "msgs")) do
+    let ids ← (← asList (← fld mj "ids")).mapM asNat
+    let compressed ← asBool (← fld mj "compressed")
+    let n ← asNat (← fld mj "n")
+    let bits ← strToBits (← asStr (← fld mj "bits"))
+    let isDef ← asBool (fldD mj "def" (Json.bool false))
+    msgs := { ids := ids, compressed := compressed, n := n, bits := bits, isDef := isDef } :: msgs
+  let outs := specRun (streamParams st.tables compiled) {} msgs.reverse
+  pure (st, jobj [("out", jarr (outs.map fun o =>
+    match o with
+    | .error e => errJson e
+    | .ok (_, subs, rest) => jobj [("subsets", jarr (subs.map subsetToJson)), ("rest", jnat rest)]))])
 
 end TD
 end Bufr.Drv
